@@ -60,98 +60,7 @@ func c02(c *core.Ctx) {
 	c.NotCovered = []string{"materialised crash images / byte-level torn writes", "file-system ordering guarantees (directory fsync after rename/create)", "a torn block whose length field itself is torn such that it points inside the file"}
 
 	rT := c.Rule("C02.torn", "the error classes a truncated file can produce in readNextBlock (io.EOF from the header read, io.EOF/io.ErrUnexpectedEOF from io.ReadFull) are all mapped to end-of-data, in readNextBlock or in every caller loop; a short header read is end-of-data", 4)
-	rnb := c.Fn(pkgV2 + ".FileReader.readNextBlock")
-	{
-		info := rnb.Info()
-		// (a) io.ReadFull error: ErrUnexpectedEOF converted to io.EOF inside, or accepted by all callers
-		var readFull *ast.CallExpr
-		core.Calls(rnb.Decl.Body, false, func(call *ast.CallExpr) {
-			if core.IsCallTo(info, call, "io.ReadFull") {
-				readFull = call
-			}
-		})
-		convertedInside := false
-		if readFull != nil {
-			// in the if statement testing ReadFull's error: errors.Is(err, io.ErrUnexpectedEOF) -> return ..., io.EOF
-			for _, n := range core.PathTo(rnb.Decl.Body, readFull) {
-				is, ok := n.(*ast.IfStmt)
-				if !ok {
-					continue
-				}
-				ast.Inspect(is.Body, func(x ast.Node) bool {
-					in, ok := x.(*ast.IfStmt)
-					if !ok {
-						return true
-					}
-					if !sentinelChecks(info, in.Cond)["io.ErrUnexpectedEOF"] {
-						return true
-					}
-					for _, st := range in.Body.List {
-						if ret, ok := st.(*ast.ReturnStmt); ok && len(ret.Results) == 2 {
-							if o := core.ObjOf(info, ret.Results[1]); o != nil && o.Pkg() != nil && o.Pkg().Path() == "io" && o.Name() == "EOF" {
-								convertedInside = true
-							}
-						}
-					}
-					return true
-				})
-			}
-		}
-		cg := c.CG()
-		allCallersAccept := true
-		nCallers := 0
-		for _, s := range cg.CallersOf(rnb) {
-			nCallers++
-			c.Touch(s.Caller)
-			cinfo := s.Caller.Info()
-			// the loop around the call: its error branch must accept io.EOF (always) and ErrUnexpectedEOF (unless converted inside)
-			var loop *ast.ForStmt
-			for _, n := range core.PathTo(s.Caller.Decl.Body, s.Call) {
-				if fs, ok := n.(*ast.ForStmt); ok {
-					loop = fs
-				}
-			}
-			acc := map[string]bool{}
-			if loop != nil {
-				acc = sentinelChecks(cinfo, loop.Body)
-			}
-			rT.Check(acc["io.EOF"], s.Caller.Key+":loop-accepts-io.EOF", s.Call.Pos(), "io.EOF ends the block loop", "the block loop does not treat io.EOF as end of data")
-			if !acc["io.ErrUnexpectedEOF"] {
-				allCallersAccept = false
-			}
-		}
-		if readFull == nil {
-			rT.Bad(rnb.Key+":io.ReadFull", rnb.Decl.Pos(), "block data is no longer read with io.ReadFull (rule needs review)")
-		} else {
-			rT.Check(convertedInside || (allCallersAccept && nCallers > 0), rnb.Key+":io.ReadFull", readFull.Pos(),
-				"a truncated block body (io.ErrUnexpectedEOF) is end-of-data",
-				"io.ReadFull's io.ErrUnexpectedEOF for a torn last block is returned as a hard error: Load aborts and the swamp comes back empty after a crash")
-		}
-		// (b) short header read
-		short := false
-		ast.Inspect(rnb.Decl.Body, func(x ast.Node) bool {
-			is, ok := x.(*ast.IfStmt)
-			if !ok {
-				return true
-			}
-			be, ok := core.Unparen(is.Cond).(*ast.BinaryExpr)
-			if !ok || be.Op != token.LSS {
-				return true
-			}
-			if o := core.ObjOf(info, be.Y); o == nil || o.Name() != "BlockHeaderSize" {
-				return true
-			}
-			for _, st := range is.Body.List {
-				if ret, ok := st.(*ast.ReturnStmt); ok && len(ret.Results) == 2 {
-					if o := core.ObjOf(info, ret.Results[1]); o != nil && o.Name() == "EOF" {
-						short = true
-					}
-				}
-			}
-			return true
-		})
-		rT.Check(short, rnb.Key+":short-header", rnb.Decl.Pos(), "n < BlockHeaderSize -> io.EOF", "a partially written block header is not treated as end of data")
-	}
+	tornRule(c, rT)
 
 	rTr := c.Rule("C02.tailtrunc", "when an existing file is opened for appending, every successful return is preceded by Truncate(end) and Seek(end) where end comes from a scan of the block headers; the writer never blindly seeks to the end of the file", 2)
 	{
@@ -485,6 +394,9 @@ func c25(c *core.Ctx) {
 		rP.Bad(pkgV2+":block-writes", token.NoPos, "no block writes found in the storage writer")
 	}
 
+	rTT := c.Rule("C25.torntail", "a failed append can leave a torn tail of any length (a short write of the block header or data whose rollback also failed): every error class such a tail produces in the block reader - a short header read included - is end-of-data, so the blocks written before the failure stay readable (shared with C02.torn)", 4)
+	tornRule(c, rTT)
+
 	rPC := c.Rule("C25.poscache", "a writer field that caches the append offset (it is used as the offset of a Seek(..., io.SeekStart)) is restored by every function that truncates the file for a rollback: otherwise the cached offset runs ahead of the real end of file after a failed block write and later blocks are written behind a hole", 1)
 	{
 		_, wst := p.StructOf(pkgV2, "FileWriter")
@@ -627,4 +539,104 @@ func callsQ(f *core.Func, qname string) bool {
 		}
 	})
 	return found
+}
+
+// tornRule decides that a truncated tail is read as end-of-data (C02.torn, shared with C25.torntail: a short
+// write whose rollback also failed leaves exactly such a tail).
+func tornRule(c *core.Ctx, rT *core.Rule) {
+	p := c.P
+	_ = p
+	rnb := c.Fn(pkgV2 + ".FileReader.readNextBlock")
+	{
+		info := rnb.Info()
+		// (a) io.ReadFull error: ErrUnexpectedEOF converted to io.EOF inside, or accepted by all callers
+		var readFull *ast.CallExpr
+		core.Calls(rnb.Decl.Body, false, func(call *ast.CallExpr) {
+			if core.IsCallTo(info, call, "io.ReadFull") {
+				readFull = call
+			}
+		})
+		convertedInside := false
+		if readFull != nil {
+			// in the if statement testing ReadFull's error: errors.Is(err, io.ErrUnexpectedEOF) -> return ..., io.EOF
+			for _, n := range core.PathTo(rnb.Decl.Body, readFull) {
+				is, ok := n.(*ast.IfStmt)
+				if !ok {
+					continue
+				}
+				ast.Inspect(is.Body, func(x ast.Node) bool {
+					in, ok := x.(*ast.IfStmt)
+					if !ok {
+						return true
+					}
+					if !sentinelChecks(info, in.Cond)["io.ErrUnexpectedEOF"] {
+						return true
+					}
+					for _, st := range in.Body.List {
+						if ret, ok := st.(*ast.ReturnStmt); ok && len(ret.Results) == 2 {
+							if o := core.ObjOf(info, ret.Results[1]); o != nil && o.Pkg() != nil && o.Pkg().Path() == "io" && o.Name() == "EOF" {
+								convertedInside = true
+							}
+						}
+					}
+					return true
+				})
+			}
+		}
+		cg := c.CG()
+		allCallersAccept := true
+		nCallers := 0
+		for _, s := range cg.CallersOf(rnb) {
+			nCallers++
+			c.Touch(s.Caller)
+			cinfo := s.Caller.Info()
+			// the loop around the call: its error branch must accept io.EOF (always) and ErrUnexpectedEOF (unless converted inside)
+			var loop *ast.ForStmt
+			for _, n := range core.PathTo(s.Caller.Decl.Body, s.Call) {
+				if fs, ok := n.(*ast.ForStmt); ok {
+					loop = fs
+				}
+			}
+			acc := map[string]bool{}
+			if loop != nil {
+				acc = sentinelChecks(cinfo, loop.Body)
+			}
+			rT.Check(acc["io.EOF"], s.Caller.Key+":loop-accepts-io.EOF", s.Call.Pos(), "io.EOF ends the block loop", "the block loop does not treat io.EOF as end of data")
+			if !acc["io.ErrUnexpectedEOF"] {
+				allCallersAccept = false
+			}
+		}
+		if readFull == nil {
+			rT.Bad(rnb.Key+":io.ReadFull", rnb.Decl.Pos(), "block data is no longer read with io.ReadFull (rule needs review)")
+		} else {
+			rT.Check(convertedInside || (allCallersAccept && nCallers > 0), rnb.Key+":io.ReadFull", readFull.Pos(),
+				"a truncated block body (io.ErrUnexpectedEOF) is end-of-data",
+				"io.ReadFull's io.ErrUnexpectedEOF for a torn last block is returned as a hard error: Load aborts and the swamp comes back empty after a crash")
+		}
+		// (b) short header read
+		short := false
+		ast.Inspect(rnb.Decl.Body, func(x ast.Node) bool {
+			is, ok := x.(*ast.IfStmt)
+			if !ok {
+				return true
+			}
+			be, ok := core.Unparen(is.Cond).(*ast.BinaryExpr)
+			if !ok || be.Op != token.LSS {
+				return true
+			}
+			if o := core.ObjOf(info, be.Y); o == nil || o.Name() != "BlockHeaderSize" {
+				return true
+			}
+			for _, st := range is.Body.List {
+				if ret, ok := st.(*ast.ReturnStmt); ok && len(ret.Results) == 2 {
+					if o := core.ObjOf(info, ret.Results[1]); o != nil && o.Name() == "EOF" {
+						short = true
+					}
+				}
+			}
+			return true
+		})
+		rT.Check(short, rnb.Key+":short-header", rnb.Decl.Pos(), "n < BlockHeaderSize -> io.EOF", "a partially written block header is not treated as end of data")
+	}
+
 }
